@@ -102,7 +102,7 @@ Leaves    == {Cmp(op, l, r) : op \in CmpOps, l \in Operands, r \in Operands}
 TblRefs   == {Tbl(t, al) : t \in Tables, al \in {""} \cup Aliases}
 Types     == {Ty("INT", 0), Ty("BIGINT", 0), Ty("BOOLEAN", 0)} \cup {Ty("VARCHAR", n) : n \in VarcharLens}
 
-SeqsOf(S, lo, hi) == UNION {[1..n -> S] : n \in lo..hi}
+Seqs(S, n) == [1..n -> S]          \* the sequences of length n over S
 Opt(S) == {<<>>} \cup {<<x>> : x \in S}
 
 \* Conditions.  A condition without parentheses is a sequence of leaves cut into
@@ -115,8 +115,8 @@ SplitAt(ls, cuts, i, cur) ==
   ELSE IF (i - 1) \in cuts THEN <<cur>> \o SplitAt(ls, cuts, i + 1, <<ls[i]>>)
        ELSE SplitAt(ls, cuts, i + 1, Append(cur, ls[i]))
 Split(ls, cuts) == SplitAt(ls, cuts, 2, <<ls[1]>>)
-CondsOver(P, lo, hi) ==
-  UNION { {OrTree(Split(ls, cuts)) : cuts \in SUBSET (1..(Len(ls) - 1))} : ls \in SeqsOf(P, lo, hi) }
+\* every condition with exactly n leaves taken from P
+CondsOfLen(P, n) == {OrTree(Split(ls, cuts)) : ls \in [1..n -> P], cuts \in SUBSET (1..(n - 1))}
 
 RECURSIVE NLeaves(_)
 NLeaves(c) == IF c.k \in {"and", "or"} THEN NLeaves(c.l) + NLeaves(c.r) ELSE 1
@@ -288,24 +288,23 @@ NoC == <<>>
 SimpleSel(items) == Sel(items, BaseFrom, NoC, NoC, NoC, NoC, NoC, NoC)
 WhereSel(c)      == Sel(BaseItems, BaseFrom, NoC, <<c>>, NoC, NoC, NoC, NoC)
 
-Trees(lo)  == CondsOver(LeafPool, lo, MaxLeaves)
+Trees(n)   == CondsOfLen(LeafPool, n)
 ItemExprs  == ColRefs \cup Lits \cup {CountOf(Star)} \cup {CountOf(c) : c \in ColRefs} \cup {AvgOf(c) : c \in ColRefs}
 AliasOpts  == {""} \cup Aliases
 JoinSet    == {JoinOf(jt, tb, on) : jt \in JoinTypes, tb \in JoinTblPool, on \in CondPool}
-GroupLists == SeqsOf(ColPool, 1, MaxGroup)
-OrderLists == SeqsOf({Ord(c, d) : c \in ColPool, d \in Dirs}, 1, MaxOrder)
+OrdSet     == {Ord(c, d) : c \in ColPool, d \in Dirs}
+AsgSet     == {Asg(c, v) : c \in Cols, v \in LitPool}
 CountStar  == <<Item(CountOf(Star), "")>>
 
 \* a few values of every clause, all combinations
 ComboCond   == CHOOSE c \in CondPool : c.k = "cmp"
-ComboGroup  == CHOOSE g \in SeqsOf(ColPool, 2, 2) : g[1] # g[2]
+ComboGroup  == CHOOSE g \in Seqs(ColPool, 2) : g[1] # g[2]
 ComboCol    == CHOOSE c \in ColPool : c.q # ""
 ComboLim    == CHOOSE n \in LimVals : TRUE
 ComboItems  == {CountStar} \cup {<<it>> : it \in ItemPool}
-ComboJoins  == SeqsOf({JoinOf(jt, tb, ComboCond) : jt \in {"INNER", "LEFT"}, tb \in JoinTblPool}, 0, 1)
+ComboJoins  == {NoC} \cup {<<JoinOf(jt, tb, ComboCond)>> : jt \in {"INNER", "LEFT"}, tb \in JoinTblPool}
 
 \* rows of one INSERT have the same width; a column list, when present, has that width too
-Rows(L, w, lo, hi) == SeqsOf([1..w -> L], lo, hi)
 FixedCols(w) == CHOOSE f \in [1..w -> Cols] : \A i, j \in 1..w : i # j => f[i] # f[j]
 FixedRow(w)  == [i \in 1..w |-> CHOOSE v \in LitPool : TRUE]
 FixedAsg     == <<Asg(CHOOSE x \in Cols : TRUE, CHOOSE v \in LitPool : TRUE)>>
@@ -318,26 +317,41 @@ SliceNames == {"sel_item_expr", "sel_item_leaf", "sel_item_tree", "sel_items", "
                "ins_cols", "ins_row", "ins_rows", "upd_one", "upd_list", "upd_where_leaf", "upd_where_tree",
                "del_all", "del_leaf", "del_tree", "create_table", "create_database", "use", "show", "given"}
 
-\* (an operator with a parameter, so that TLC builds a slice only when the configuration uses it)
-Slice(name) ==
+\* A slice is a family of sets indexed by a size (list length, number of leaves; for INSERT
+\* 10 * width + rows): SliceSizes(name) are the sizes within the bounds, Slice(name, n) one member.
+\* (Operators with parameters, so that TLC builds only what a configuration uses, one size at a time.)
+SliceSizes(name) ==
+  CASE name \in {"sel_item_tree", "sel_where_tree", "upd_where_tree", "del_tree"} -> 2..MaxLeaves
+    [] name = "sel_on"          -> 1..MaxLeaves
+    [] name = "sel_items"       -> 1..MaxItems
+    [] name = "sel_nofrom"      -> 1..2
+    [] name = "sel_from"        -> 0..MaxJoins
+    [] name \in {"sel_group_count", "sel_group_cols", "sel_group_alias"} -> 1..MaxGroup
+    [] name = "sel_order"       -> 1..MaxOrder
+    [] name \in {"ins_cols", "ins_row"} -> 1..MaxVals
+    [] name = "ins_rows"        -> {10 * w + r : w \in 1..MaxVals, r \in 1..MaxRows}
+    [] name = "upd_list"        -> 1..MaxSet
+    [] name = "create_table"    -> 1..MaxDefs
+    [] OTHER                    -> {0}
+
+Slice(name, n) ==
   CASE name = "sel_item_expr"  -> {SimpleSel(<<Item(e, al)>>) : e \in ItemExprs, al \in AliasOpts}
     [] name = "sel_item_leaf"  -> {SimpleSel(<<Item(e, al)>>) : e \in LeafSet, al \in AliasOpts}
-    [] name = "sel_item_tree"  -> {SimpleSel(<<Item(e, al)>>) : e \in Trees(2), al \in AliasOpts}
-    [] name = "sel_items"      -> {SimpleSel(il) : il \in SeqsOf(ItemPool, 1, MaxItems)}
-    [] name = "sel_nofrom"     -> {Sel(il, NoC, NoC, NoC, NoC, NoC, NoC, NoC) : il \in SeqsOf(ItemPool, 1, 2)}
+    [] name = "sel_item_tree"  -> {SimpleSel(<<Item(e, al)>>) : e \in Trees(n), al \in AliasOpts}
+    [] name = "sel_items"      -> {SimpleSel(il) : il \in Seqs(ItemPool, n)}
+    [] name = "sel_nofrom"     -> {Sel(il, NoC, NoC, NoC, NoC, NoC, NoC, NoC) : il \in Seqs(ItemPool, n)}
     [] name = "sel_star"       -> {SimpleSel(BaseItems)}
-    [] name = "sel_from"       -> {Sel(BaseItems, <<tr>>, js, NoC, NoC, NoC, NoC, NoC) :
-                                      tr \in TblRefs, js \in SeqsOf(JoinSet, 0, MaxJoins)}
+    [] name = "sel_from"       -> {Sel(BaseItems, <<tr>>, js, NoC, NoC, NoC, NoC, NoC) : tr \in TblRefs, js \in Seqs(JoinSet, n)}
     [] name = "sel_on"         -> {Sel(BaseItems, BaseFrom, <<JoinOf(jt, tb, on)>>, NoC, NoC, NoC, NoC, NoC) :
-                                      jt \in JoinTypes, tb \in JoinTblPool, on \in Trees(1)}
+                                      jt \in JoinTypes, tb \in JoinTblPool, on \in Trees(n)}
     [] name = "sel_where_leaf" -> {WhereSel(c) : c \in LeafSet}
-    [] name = "sel_where_tree" -> {WhereSel(c) : c \in Trees(2)}
-    [] name = "sel_group_count" -> {Sel(CountStar, BaseFrom, NoC, NoC, g, NoC, NoC, NoC) : g \in GroupLists}
-    [] name = "sel_group_cols" -> {Sel([i \in 1..Len(g) |-> Item(g[i], "")] \o CountStar, BaseFrom, NoC, NoC, g, NoC, NoC, NoC) :
-                                      g \in GroupLists}
+    [] name = "sel_where_tree" -> {WhereSel(c) : c \in Trees(n)}
+    [] name = "sel_group_count" -> {Sel(CountStar, BaseFrom, NoC, NoC, g, NoC, NoC, NoC) : g \in Seqs(ColPool, n)}
+    [] name = "sel_group_cols" -> {Sel([i \in 1..n |-> Item(g[i], "")] \o CountStar, BaseFrom, NoC, NoC, g, NoC, NoC, NoC) :
+                                      g \in Seqs(ColPool, n)}
     [] name = "sel_group_alias" -> {Sel(<<Item(g[1], al), Item(AvgOf(c), "")>>, BaseFrom, NoC, NoC,
-                                        <<Col("", al)>> \o Tail(g), NoC, NoC, NoC) : g \in GroupLists, al \in Aliases, c \in ColPool}
-    [] name = "sel_order"      -> {Sel(BaseItems, BaseFrom, NoC, NoC, NoC, o, NoC, NoC) : o \in OrderLists}
+                                        <<Col("", al)>> \o Tail(g), NoC, NoC, NoC) : g \in Seqs(ColPool, n), al \in Aliases, c \in ColPool}
+    [] name = "sel_order"      -> {Sel(BaseItems, BaseFrom, NoC, NoC, NoC, o, NoC, NoC) : o \in Seqs(OrdSet, n)}
     [] name = "sel_limit"      -> {Sel(BaseItems, BaseFrom, NoC, NoC, NoC, o, l, f) :
                                       o \in {NoC, <<Ord(ComboCol, "DESC")>>}, l \in Opt(LimVals), f \in Opt(LimVals)}
     [] name = "sel_combo"      -> {Sel(il, <<tr>>, js, w, g, o, l, f) :
@@ -345,27 +359,25 @@ Slice(name) ==
                                       w \in Opt(CondPool), g \in {NoC, ComboGroup},
                                       o \in {NoC, <<Ord(ComboCol, "ASC"), Ord(ComboCol, "DESC")>>},
                                       l \in Opt({ComboLim}), f \in Opt({ComboLim})}
-    [] name = "ins_cols"       -> UNION { {Ins(tb, cols, <<FixedRow(w)>>) : tb \in Tables, cols \in [1..w -> Cols]} : w \in 1..MaxVals }
-    [] name = "ins_row"        -> UNION { {Ins(BaseTable, cols, rows) : cols \in {NoC, FixedCols(w)}, rows \in Rows(Lits, w, 1, 1)} :
-                                          w \in 1..MaxVals }
-    [] name = "ins_rows"       -> UNION { {Ins(BaseTable, cols, rows) : cols \in {NoC, FixedCols(w)}, rows \in Rows(LitPool, w, 1, MaxRows)} :
-                                          w \in 1..MaxVals }
+    [] name = "ins_cols"       -> {Ins(tb, cols, <<FixedRow(n)>>) : tb \in Tables, cols \in Seqs(Cols, n)}
+    [] name = "ins_row"        -> {Ins(BaseTable, cols, <<row>>) : cols \in {NoC, FixedCols(n)}, row \in Seqs(Lits, n)}
+    [] name = "ins_rows"       -> {Ins(BaseTable, cols, rows) : cols \in {NoC, FixedCols(n \div 10)},
+                                                             rows \in Seqs(Seqs(LitPool, n \div 10), n % 10)}
     [] name = "upd_one"        -> {Upd(tb, <<Asg(c, v)>>, w) : tb \in Tables, c \in Cols, v \in Lits, w \in Opt(CondPool)}
-    [] name = "upd_list"       -> {Upd(BaseTable, set, w) : set \in SeqsOf({Asg(c, v) : c \in Cols, v \in LitPool}, 1, MaxSet),
-                                                           w \in Opt(CondPool)}
+    [] name = "upd_list"       -> {Upd(BaseTable, set, w) : set \in Seqs(AsgSet, n), w \in Opt(CondPool)}
     [] name = "upd_where_leaf" -> {Upd(BaseTable, FixedAsg, <<c>>) : c \in LeafSet}
-    [] name = "upd_where_tree" -> {Upd(BaseTable, FixedAsg, <<c>>) : c \in Trees(2)}
+    [] name = "upd_where_tree" -> {Upd(BaseTable, FixedAsg, <<c>>) : c \in Trees(n)}
     [] name = "del_all"        -> {Del(tb, NoC) : tb \in Tables}
     [] name = "del_leaf"       -> {Del(BaseTable, <<c>>) : c \in LeafSet}
-    [] name = "del_tree"       -> {Del(BaseTable, <<c>>) : c \in Trees(2)}
-    [] name = "create_table"   -> {CreT(tb, [i \in 1..Len(tys) |-> Def(DefNames[i], tys[i])]) : tb \in Tables, tys \in SeqsOf(Types, 1, MaxDefs)}
+    [] name = "del_tree"       -> {Del(BaseTable, <<c>>) : c \in Trees(n)}
+    [] name = "create_table"   -> {CreT(tb, [i \in 1..n |-> Def(DefNames[i], tys[i])]) : tb \in Tables, tys \in Seqs(Types, n)}
     [] name = "create_database" -> {CreD(d) : d \in Dbs}
     [] name = "use"            -> {UseD(d) : d \in Dbs}
     [] name = "show"           -> {ShowD}
     [] name = "given"          -> Stmts
 
-\* the universe a configuration works with (parameterised for the same reason)
-UniverseOf(names) == UNION {{s \in Slice(n) : StmtWF(s)} : n \in names}
+\* membership in the universe a configuration works with
+InUniverse(names, s) == StmtWF(s) /\ \E nm \in names : \E n \in SliceSizes(nm) : s \in Slice(nm, n)
 
 \* C10 counts these: a statement that exercises an optional construct or a boolean tree
 HasOptional(s) == \E i \in DOMAIN Toks(s, "LO") : Toks(s, "LO")[i].o \in {"kw", "legacy"}
@@ -380,7 +392,7 @@ NonTrivial(s) == HasOptional(s) \/ HasTree(s)
 -----------------------------------------------------------------------------
 (* The machine                                                             *)
 
-Pick == \E n \in Slices : \E s \in Slice(n) : \E f \in Forms(s) :
+Pick == \E nm \in Slices : \E n \in SliceSizes(nm) : \E s \in Slice(nm, n) : \E f \in Forms(s) :
            /\ StmtWF(s)
            /\ ast = s /\ form = f /\ rest = Toks(s, f)
            /\ toks = <<>> /\ junk = 0 /\ tail = 0
